@@ -134,40 +134,67 @@ deriving Repr, Inhabited
 def facePos (verts : List (V3 K)) (f : T3 Nat) : T3 (V3 K) :=
   f.map fun i => verts.getD i V3.zero
 
-/-- `slice_faces_plane` (reached through `slice_triangles_by_plane`; `mask[i]` = face `i` is selected). -/
+/-- the per-vertex signs (`signs`, before `signs = signs[faces]`) -/
+def vsigns (tol : K) (o n : V3 K) (verts : List (V3 K)) : List Int := verts.map fun v => vsign tol (offset o n v)
+
+/-- the classified face list: `(face number, face, kind)` -/
+def kindsOf (tol : K) (o n : V3 K) (verts : List (V3 K)) (faces : List (T3 Nat)) (mask : List Bool) :
+    List (Nat × T3 Nat × FaceKind) :=
+  faces.zipIdx.map fun (f, i) =>
+    (i, f, classifyFace (f.map fun j => (vsigns tol o n verts).getD j 0) (mask.getD i true))
+
+/-- `inside` faces -/
+def isKeep : Nat × T3 Nat × FaceKind → Bool
+  | (_, _, k) => k == .keep
+/-- `onedge_quad`: `(face number, face, column of the corner behind)` -/
+def quadSel : Nat × T3 Nat × FaceKind → Option (Nat × T3 Nat × Nat)
+  | (i, f, .quad c) => some (i, f, c)
+  | _ => none
+/-- `onedge_tri`: `(face number, face, column of the corner in front)` -/
+def triSel : Nat × T3 Nat × FaceKind → Option (Nat × T3 Nat × Nat)
+  | (i, f, .tri c) => some (i, f, c)
+  | _ => none
+
+/-- `new_vertices`: the originals, then two new points per quad face (`X_{c+2}`, `X_c`), then two per cut triangle
+    (`X_c`, `X_{c+2}`) -/
+def newVertsOf (eps : K) (o n : V3 K) (verts : List (V3 K)) (quads tris : List (Nat × T3 Nat × Nat)) :
+    List (V3 K) :=
+  verts ++ quads.flatMap (fun e => [(intPoints eps o n (facePos verts e.2.1)).get (e.2.2 + 2),
+                                     (intPoints eps o n (facePos verts e.2.1)).get e.2.2]) ++
+    tris.flatMap (fun e => [(intPoints eps o n (facePos verts e.2.1)).get e.2.2,
+                            (intPoints eps o n (facePos verts e.2.1)).get (e.2.2 + 2)])
+
+/-- `new_faces`: kept faces, then `quads_to_tris([v_{c+1}, v_{c+2}, N+2j, N+2j+1])`, then `[v_c, N'+2j, N'+2j+1]` -/
+def newFacesOf (n0 : Nat) (kept : List (Nat × T3 Nat × FaceKind)) (quads tris : List (Nat × T3 Nat × Nat)) :
+    List (T3 Nat) :=
+  kept.map (·.2.1) ++
+    quadsToTris ((quads.zipIdx).map fun (e, j) =>
+      (e.2.1.get (e.2.2 + 1), e.2.1.get (e.2.2 + 2), n0 + 2 * j, n0 + 2 * j + 1)) ++
+    (tris.zipIdx).map fun (e, j) =>
+      (⟨e.2.1.get e.2.2, (n0 + 2 * quads.length) + 2 * j, (n0 + 2 * quads.length) + 2 * j + 1⟩ : T3 Nat)
+
+/-- `new_face_mapping`: kept face numbers, each quad face number twice, each cut-triangle face number once -/
+def newMappingOf (kept : List (Nat × T3 Nat × FaceKind)) (quads tris : List (Nat × T3 Nat × Nat)) : List Nat :=
+  kept.map (·.1) ++ quads.flatMap (fun e => [e.1, e.1]) ++ tris.map (·.1)
+
+/-- `slice_faces_plane` (reached through `slice_triangles_by_plane`; `mask[i]` = face `i` is selected),
+    with its three return paths. -/
 def sliceMesh (tol eps : K) (verts : List (V3 K)) (faces : List (T3 Nat)) (o n : V3 K)
     (mask : List Bool) : Result K :=
   if verts.isEmpty then ⟨verts, faces, List.range faces.length⟩ else
-  let vs : List Int := verts.map fun v => vsign tol (offset o n v)
-  let kinds : List (Nat × T3 Nat × FaceKind) := faces.zipIdx.map fun (f, i) =>
-    (i, f, classifyFace (f.map fun j => vs.getD j 0) (mask.getD i true))
-  let kept := kinds.filter fun (_, _, k) => k == .keep
-  let quads := kinds.filterMap fun (i, f, k) => match k with | .quad c => some (i, f, c) | _ => none
-  let tris := kinds.filterMap fun (i, f, k) => match k with | .tri c => some (i, f, c) | _ => none
-  let keptFaces := kept.map (·.2.1)
-  let keptIdx := kept.map (·.1)
+  let kinds := kindsOf tol o n verts faces mask
+  let kept := kinds.filter isKeep
+  let quads := kinds.filterMap quadSel
+  let tris := kinds.filterMap triSel
   if quads.isEmpty && tris.isEmpty then
-    if keptFaces.isEmpty then ⟨[], [], keptIdx⟩
+    -- no faces to cut
+    if (kept.map (·.2.1)).isEmpty then ⟨[], [], kept.map (·.1)⟩
     else
-      let (v', f') := compact verts keptFaces
-      ⟨v', f', keptIdx⟩
+      let c := compact verts (kept.map (·.2.1))
+      ⟨c.1, c.2, kept.map (·.1)⟩
   else
-    let n0 := verts.length
-    let x (f : T3 Nat) : T3 (V3 K) := intPoints eps o n (facePos verts f)
-    -- quads: faces [v_{c+1}, v_{c+2}, N+2j, N+2j+1], new vertices X_{c+2}, X_{c}
-    let quadFaces := quads.zipIdx.map fun ((_, f, c), j) =>
-      (f.get (c + 1), f.get (c + 2), n0 + 2 * j, n0 + 2 * j + 1)
-    let quadVerts := quads.flatMap fun (_, f, c) => [(x f).get (c + 2), (x f).get c]
-    let n1 := n0 + 2 * quads.length
-    -- triangles: faces [v_c, N'+2j, N'+2j+1], new vertices X_{c}, X_{c+2}
-    let triFaces : List (T3 Nat) := tris.zipIdx.map fun ((_, f, c), j) =>
-      ⟨f.get c, n1 + 2 * j, n1 + 2 * j + 1⟩
-    let triVerts := tris.flatMap fun (_, f, c) => [(x f).get c, (x f).get (c + 2)]
-    let newVerts := verts ++ quadVerts ++ triVerts
-    let newFaces := keptFaces ++ quadsToTris quadFaces ++ triFaces
-    let mapping := keptIdx ++ quads.flatMap (fun (i, _, _) => [i, i]) ++ tris.map (·.1)
-    let (v', f') := compact newVerts newFaces
-    ⟨v', f', mapping⟩
+    let c := compact (newVertsOf eps o n verts quads tris) (newFacesOf verts.length kept quads tris)
+    ⟨c.1, c.2, newMappingOf kept quads tris⟩
 
 /-- `slice_triangles_by_plane`'s conversion `faces_to_slice.nonzero()[0]` → `mask[face_index] = True`
     is the identity on masks of the right length; `None` selects every face. -/
